@@ -198,6 +198,39 @@ def outcome_tables(ctx, rep, rule, names=('raised_exception', 'result')):
                           "result() must be %s for a job that is %s" % (want, lbl))
 
 
+def _handler_keeps_exception(h):
+    """None when every way out of the handler re-raises the caught exception object (bare `raise`, or `raise name`
+    of the handler's own name), else what it does instead"""
+    name = h.name
+
+    def ends_in_reraise(stmts):
+        if not stmts:
+            return "swallows the exception"
+        last = stmts[-1]
+        if isinstance(last, ast.Raise):
+            if last.exc is None or (isinstance(last.exc, ast.Name) and last.exc.id == name and last.cause is None):
+                return None
+            return "raises another object: `%s`" % src(last)
+        if isinstance(last, ast.If):
+            return ends_in_reraise(last.body) or (ends_in_reraise(last.orelse) if last.orelse
+                                                   else "swallows the exception on one branch")
+        if isinstance(last, (ast.With, ast.AsyncWith)):
+            return ends_in_reraise(last.body)
+        if isinstance(last, ast.Try):
+            return ends_in_reraise(last.finalbody) if last.finalbody and isinstance(last.finalbody[-1], ast.Raise) \
+                else ends_in_reraise(last.body)
+        return "swallows the exception"
+    v = ends_in_reraise(h.body)
+    if v is None:
+        for n in ast.walk(h):
+            if isinstance(n, (ast.Return, ast.Break, ast.Continue)):
+                return "can leave without re-raising (`%s`)" % src(n)
+            if isinstance(n, ast.Raise) and not (n.exc is None or (isinstance(n.exc, ast.Name) and n.exc.id == name
+                                                                   and n.cause is None)):
+                return "raises another object: `%s`" % src(n)
+    return v
+
+
 def identity_flow(ctx, rep, rule):
     """R14.3: the wrapper returns the value of the body unchanged and does not
     replace its exception; Job.co_run returns the awaited coroutine's value"""
@@ -255,6 +288,40 @@ def identity_flow(ctx, rep, rule):
             rep.fail(rule, "%s falls off its end" % f.qualname, f.qualname,
                      "co_run ends without returning the awaited value",
                      "result() of a coroutine-based job is always None", trace(st))
+        # ... and lets whatever the user coroutine raises through, as the object it is: no handler or context
+        # manager around the await catches, replaces or suppresses it
+        for a in aw:
+            n = a
+            while n is not None and n is not f.node:
+                par = getattr(n, '_parent', None)
+                if isinstance(par, ast.Try) and n in par.body:
+                    for h in par.handlers:
+                        verdict = _handler_keeps_exception(h)
+                        if verdict is None:
+                            continue
+                        rep.check(False, rule, "%s:%d the user coroutine's exception leaves co_run as it is"
+                                  % (f.module.relpath, h.lineno), f.qualname,
+                                  "`except %s` around `%s` %s" % (src(h.type) if h.type else '', src(a), verdict),
+                                  "a job whose coroutine raises is recorded as having returned, or with an exception "
+                                  "object that is not the one raised: raised_exception(), the critical-failure test "
+                                  "and the verdict of the run go wrong")
+                if isinstance(par, (ast.With, ast.AsyncWith)) and n in par.body:
+                    for item in par.items:
+                        ce = item.context_expr
+                        d = dotted(ce.func) if isinstance(ce, ast.Call) else None
+                        if d in ('contextlib.suppress', 'suppress'):
+                            rep.check(False, rule, "%s:%d the user coroutine's exception leaves co_run as it is"
+                                      % (f.module.relpath, par.lineno), f.qualname,
+                                      "`with %s` around `%s` swallows these exceptions" % (src(ce), src(a)),
+                                      "a job whose coroutine raises is recorded as having returned: the run goes on and "
+                                      "reports success although a (critical) job failed")
+                        elif d in ('contextlib.nullcontext', 'nullcontext', 'contextlib.closing', 'closing'):
+                            pass
+                        else:
+                            rep.error(rule, "%s:%d `with %s` around the awaited user coroutine: cannot tell whether it "
+                                      "lets exceptions through" % (f.module.relpath, par.lineno, src(ce)))
+                n = par
+        rep.ok(rule, "%s: nothing around `%s` catches what the user coroutine raises" % (f.qualname, src(aw[0])))
 
 
 def writers_monotone(ctx, rep, rule):
